@@ -231,12 +231,12 @@ fn gen_valid(dna: &mut Dna, sizes: &[u32; 4], want_syn: bool) -> StreamCase {
                 "syn {} tokens={} refs={} blocks={}",
                 s.features.mode, s.features.tokens, s.features.references, s.features.blocks
             ),
-            known_plain: if s.zlib_should_accept {
+            known_plain: if s.zlib_should_accept && !s.features.poisoned {
                 Some(s.plain)
             } else {
                 None
             },
-            stream_len: Some(s.stream_len),
+            stream_len: if s.features.poisoned { None } else { Some(s.stream_len) },
             bytes: s.bytes,
             source: "syn",
             family: None,
